@@ -455,8 +455,20 @@ static int take_fault(Ev &ev, Stream *s)
             static const char *generic[] = {"HP_write", "HP_read", "HPseek", "Hwrite", "Hread", "Hseek", "Hputelement",
                                             "Hgetelement", "Hstartaccess", "Hstartread", "Hstartwrite", "Hendaccess",
                                             "Hlength", "hi_close_stdio", "Hinquire", "HTPinquire", nullptr};
-            void *pcs[40];
-            int   n = backtrace(pcs, 40), kept = 0;
+            // frame-pointer walk (everything is built with -fno-omit-frame-pointer): far cheaper than backtrace()
+            void  *pcs[40];
+            int    n = 0, kept = 0;
+            void **fp = (void **)__builtin_frame_address(0);
+            while (fp && n < 40) {
+                void  *ret  = fp[1];
+                void **next = (void **)fp[0];
+                if (!ret)
+                    break;
+                pcs[n++] = ret;
+                if (next <= fp || (char *)next - (char *)fp > (1 << 20))
+                    break;
+                fp = next;
+            }
             for (int i = 0; i < n && kept < 3; i++) {
                 char buf[256] = "";
                 __sanitizer_symbolize_pc((char *)pcs[i] - 1, "%f", buf, sizeof buf);
